@@ -45,6 +45,7 @@ def page_budget(g, hist, obs, pi, start):
     if gn["header"] == "default":
         amounts["auto-header-unreserved"] = H
     # heading runs before each data row
+    pb, _, _ = P.keys_of(g, hist)
     run = 0
     first = True
     for r, info, l in pg:
@@ -52,8 +53,11 @@ def page_budget(g, hist, obs, pi, start):
             run += 1
         elif r == "data":
             row = info[1]
+            # the page_by VALUES of this row equal the previous row's (the group continues, or a new
+            # subline group repeats the same page_by value): the heading at the page top is a re-emission
+            same_pb = row > 0 and all(pb[l_][row] == pb[l_][row - 1] for l_ in range(len(pb)))
             if run:
-                if first and start[row] == 0:
+                if first and (start[row] == 0 or same_pb):
                     amounts["continuation-heading-unbudgeted"] += run
                 else:
                     amounts["multilevel-heading-budgeted-as-one"] += run - 1
